@@ -11,10 +11,10 @@ these identities, and the harness checks them numerically on `get_R()` in every 
 Clauses of the property and where they are proved:
 
 * metric that vanishes only between identical nodes — `effRes_symm`, `effRes_self`,
-  `effRes_nonneg`, `effRes_eq_zero_iff`, `triangle_partial` (partial: maximum principle assumed)
+  `effRes_nonneg`, `effRes_eq_zero_iff`, `triangle` (on cut-connected networks, through the maximum
+  principle; `triangle_partial` is the superposition step)
 * scales linearly with all resistances            — `effRes_scaling`
-* never exceeds the resistance of a connecting path — `effRes_le_link` (paths of one link;
-  longer paths follow from the triangle inequality, see `triangle_partial`)
+* never exceeds the resistance of a connecting path — `effRes_le_link`, `path_bound`
 * series and parallel laws                          — `series_law`, `parallel_law`
 * Foster's theorem                                  — `foster_partial` (for every `R` with
   `L R = I − J/n`; that `pinv` of a *connected* network has this property is not proved)
@@ -168,6 +168,75 @@ theorem foster_partial (n : Nat) (hn : 0 < n) (adj : Adj) (res R : Mat) (hN : Is
     (hp : IsProj n (laplacian n (admittance adj res)) R) :
     ∑ i ∈ range n, ∑ j ∈ range n, admittance adj res i j * effRes R i j = 2 * ((n : Rat) - 1) :=
   foster_ordered n hn _ R (adm_symm hN) hp
+
+/-! ## metric and path bound on connected networks
+
+`CutConnected n c`: every proper non-empty node set has a link leaving it (equivalent to
+connectedness).  Maximum principle: `max_principle` / `min_principle` in `Lemmas/Circuit.lean`. -/
+
+/-- **Triangle inequality** on connected networks, for every `R` with `L R = I − J/n`. -/
+theorem triangle (n : Nat) (adj : Adj) (res R : Mat) (a b c : Nat) (ha : a < n) (hb : b < n)
+    (hc : c < n) (hN : IsNetwork n adj res) (hconn : CutConnected n (admittance adj res))
+    (hp : IsProj n (laplacian n (admittance adj res)) R) :
+    effRes R a c ≤ effRes R a b + effRes R b c := by
+  have hg := ginv_of_proj n _ R hp
+  have hv := pot_of_proj n _ R a b ha hb hp
+  have hw := pot_of_proj n _ R b c hb hc hp
+  exact triangle_partial n _ R _ _ a b c ha hb hc (lap_symm (adm_symm hN)) hg hv hw
+    (min_principle n _ _ a b hb (adm_symm hN) (adm_nonneg hN) hconn hv c hc)
+    (max_principle n _ _ b c hb (adm_symm hN) (adm_nonneg hN) hconn hw a ha)
+
+/-- total resistance of a path given as its node sequence -/
+def pathRes (res : Mat) : List Nat → Rat
+  | a :: b :: t => res a b + pathRes res (b :: t)
+  | _ => 0
+
+/-- a node sequence inside the network whose consecutive nodes are linked -/
+def IsPath (n : Nat) (adj : Adj) : List Nat → Prop
+  | [] => False
+  | [a] => a < n
+  | a :: b :: t => a < n ∧ adj a b = true ∧ IsPath n adj (b :: t)
+
+/-- **Path bound**: the effective resistance between the end points of *any* connecting path
+never exceeds the path's total resistance. -/
+theorem path_bound (n : Nat) (adj : Adj) (res R : Mat) (hN : IsNetwork n adj res)
+    (hconn : CutConnected n (admittance adj res))
+    (hp : IsProj n (laplacian n (admittance adj res)) R) (t : List Nat) (a : Nat)
+    (hpath : IsPath n adj (a :: t)) :
+    effRes R a ((a :: t).getLast (by simp)) ≤ pathRes res (a :: t) := by
+  induction t generalizing a with
+  | nil => simp [effRes, pathRes]
+  | cons b t ih =>
+    obtain ⟨ha, hl, hrest⟩ := hpath
+    have hb : b < n := by
+      cases t with
+      | nil => exact hrest
+      | cons _ _ => exact hrest.1
+    have hlast : (a :: b :: t).getLast (by simp) = (b :: t).getLast (by simp) := by
+      simp [List.getLast_cons]
+    have hcn : (b :: t).getLast (by simp) < n := by
+      clear ih hlast hl
+      induction t generalizing b with
+      | nil => simpa using hb
+      | cons c t ih2 =>
+        have : (b :: c :: t).getLast (by simp) = (c :: t).getLast (by simp) := by
+          simp [List.getLast_cons]
+        rw [this]
+        have hc : c < n := by
+          cases t with
+          | nil => exact hrest.2.2
+          | cons _ _ => exact hrest.2.2.1
+        exact ih2 c hrest.2.2 hc
+    rw [hlast]
+    have h1 := triangle n adj res R a b _ ha hb hcn hN hconn hp
+    have h2 := ih b hrest
+    have h3 : effRes R a b ≤ res a b := by
+      by_cases hab : a = b
+      · subst hab; rw [effRes_self]; exact le_of_lt (hN.res_pos a a ha ha hl)
+      · exact effRes_le_link n adj res R _ a b ha hb hab hl hN (ginv_of_proj n _ R hp)
+          (pot_of_proj n _ R a b ha hb hp)
+    simp only [pathRes]
+    linarith
 
 /-! ## current-flow betweenness: the C loops are the defining sums -/
 
@@ -446,5 +515,32 @@ example : vcfbKernel 3 1 1 (admittance chainAdj unitRes) chainPinv 1
     = 2 / ((3 * (3 - 1) : Nat) : Rat) * ∑ t ∈ range 3, ∑ s ∈ range t,
         (if 1 = t ∨ 1 = s then 0 else nodeCurrent 3 1 1 (admittance chainAdj unitRes) chainPinv 1 s t) :=
   vcfbKernel_eq_sum 3 1 1 _ _ 1
+
+private theorem chain_conn : CutConnected 3 (admittance chainAdj unitRes) := by
+  rintro S ⟨i, hi, hSi⟩ ⟨j, hj, hSj⟩
+  have e01 : admittance chainAdj unitRes 0 1 ≠ 0 := by norm_num [admittance, chainAdj, unitRes]
+  have e10 : admittance chainAdj unitRes 1 0 ≠ 0 := by norm_num [admittance, chainAdj, unitRes]
+  have e12 : admittance chainAdj unitRes 1 2 ≠ 0 := by norm_num [admittance, chainAdj, unitRes]
+  have e21 : admittance chainAdj unitRes 2 1 ≠ 0 := by norm_num [admittance, chainAdj, unitRes]
+  by_cases h01 : S 0 = S 1
+  · by_cases h12 : S 1 = S 2
+    · exfalso
+      have hi' : i = 0 ∨ i = 1 ∨ i = 2 := by omega
+      have hj' : j = 0 ∨ j = 1 ∨ j = 2 := by omega
+      rcases hi' with rfl | rfl | rfl <;> rcases hj' with rfl | rfl | rfl <;> simp_all
+    · cases h1 : S 1 with
+      | true => exact ⟨1, 2, by omega, by omega, h1, by simpa [h1] using h12, e12⟩
+      | false => exact ⟨2, 1, by omega, by omega, by simpa [h1] using h12, h1, e21⟩
+  · cases h1 : S 1 with
+    | true => exact ⟨1, 0, by omega, by omega, h1, by simpa [h1] using h01, e10⟩
+    | false => exact ⟨0, 1, by omega, by omega, by simpa [h1] using h01, h1, e01⟩
+
+example : effRes chainPinv 0 2 ≤ effRes chainPinv 0 1 + effRes chainPinv 1 2 :=
+  triangle 3 chainAdj unitRes chainPinv 0 1 2 (by omega) (by omega) (by omega) chain_network
+    chain_conn chain_proj
+
+example : effRes chainPinv 0 2 ≤ pathRes unitRes [0, 1, 2] :=
+  path_bound 3 chainAdj unitRes chainPinv chain_network chain_conn chain_proj [1, 2] 0
+    (by simp [IsPath, chainAdj])
 
 end Pyunicorn.Circuit
